@@ -1,6 +1,8 @@
 import EgVerif.Proofs.Proxy
 import EgVerif.Model.ProxyE2E
+import EgVerif.Model.ProxyFlow
 import EgVerif.Gen.FactsC03
+import EgVerif.Proofs.ProxyIR
 /-!
 # C03 — the Proxy forwards faithfully, strips hop-by-hop headers, keeps responses well-framed
 
@@ -23,39 +25,28 @@ theorem hopHeaders_cover :
     (∀ k ∈ Spec.rfcHopHeaders, k ∈ Gen.FactsC03.hopHeaders) ∧
     Gen.FactsC03.hopHeaders = hopHeaders := by decide
 
-private def cloneLoop : String :=
-  "for _, f := range out[\"Connection\"] { for _, sf := range strings.Split(f, \",\") { if sf = textproto.TrimString(sf); sf != \"\" { out.Del(sf) } } }"
-
-/-- The statements the model transcribes are the ones in the source (cloneHeader,
-prepareRequest's URL / header / Host statements, checkAddrPattern). -/
+/-- The request-side statements the model transcribes. The printed-statement facts of `cloneHeader`,
+`prepareRequest` (URL / query / header / Host statements) and `checkAddrPattern` that stood here were
+replaced by the strictly stronger `cloneHeader_ / prepare_ / checkAddr_regenerated_from_source` below
+(the bodies are re-translated and proved equal to the model, which also survives renamings); what remains
+is that `prepareRequest` still takes its header from `cloneHeader`. -/
 theorem request_side_facts :
-    Gen.FactsC03.cloneHeaderBody = ["out := in.Clone()", cloneLoop, "for _, h := range hopHeaders { out.Del(h) }", "return out"] ∧
-    Gen.FactsC03.prepareURL = "url := svr.URL + req.Std().URL.EscapedPath()" ∧
-    Gen.FactsC03.prepareQuery = "if rq := req.Std().URL.RawQuery; rq != \"\" { url += \"?\" + rq }" ∧
-    Gen.FactsC03.prepareHeader = "stdr.Header = cloneHeader(req.HTTPHeader())" ∧
-    Gen.FactsC03.prepareHost = "if !svr.addrIsHostName || svr.KeepHost { stdr.Host = req.Host() }" ∧
-    Gen.FactsC03.checkAddrBody = ["u, err := url.Parse(s.URL)", "if err != nil { return }", "host := u.Host",
-      "square := strings.LastIndexByte(host, ']')", "colon := strings.LastIndexByte(host, ':')",
-      "if colon > square { host = host[:colon] }", "if square != -1 && host[0] == '[' { host = host[1:square] }",
-      "s.addrIsHostName = net.ParseIP(host) == nil"] := ⟨rfl, rfl, rfl, rfl, rfl, rfl⟩
+    Gen.FactsC03.extractionFailed = false ∧
+    Gen.FactsC03.prepareHeader = "stdr.Header = cloneHeader(req.HTTPHeader())" := ⟨rfl, rfl⟩
 
 private def adaptorBlock : String :=
   "{ egresp.SetPayload([]byte(ra.spec.Body)) egresp.HTTPHeader().Set(keyContentLength, strconv.Itoa(len(ra.spec.Body))) egresp.HTTPHeader().Del(\"Content-Encoding\") }"
 
-/-- Response side: `compress` drops both the header and the `ContentLength` field, the
-CallbackReader is the outermost wrapper, the adaptor declares the length of a replaced body,
+/-- Response side (the printed body of `compress` that stood here is replaced by
+`compress_regenerated_from_source`): the CallbackReader is the outermost wrapper, the adaptor declares the length of a replaced body,
 `FetchPayload` knows the reply to HEAD has no body, the mux writes header, status, body. -/
 theorem response_side_facts :
-    Gen.FactsC03.compressBody = ["if !c.acceptGzip(req) { return false }", "if c.alreadyGziped(resp) { return false }",
-      "if resp.ContentLength != -1 && resp.ContentLength < int64(c.spec.MinLength) { return false }",
-      "resp.Header.Del(keyContentLength)", "resp.ContentLength = -1", "resp.Header.Set(keyContentEncoding, \"gzip\")",
-      "resp.Header.Add(keyVary, keyContentEncoding)", "resp.Body = readers.NewGZipCompressReader(resp.Body)", "return true"] ∧
     Gen.FactsC03.buildResponseOrder = true ∧
     Gen.FactsC03.respAdaptorBodyBlock = adaptorBlock ∧
     Gen.FactsC03.respAdaptor_compress_setsLength = true ∧
     Gen.FactsC03.respAdaptor_decompress_setsLength = true ∧
     Gen.FactsC03.fetchPayloadHeadGuard = true ∧
-    Gen.FactsC03.muxWriteOut = true := ⟨rfl, rfl, rfl, rfl, rfl, rfl, rfl⟩
+    Gen.FactsC03.muxWriteOut = true := ⟨rfl, rfl, rfl, rfl, rfl, rfl⟩
 
 /-! ### Hop-by-hop headers -/
 
@@ -640,6 +631,505 @@ theorem cache_hits_well_framed (cfg : CacheCfg) (as : List AdSpec) (has : ∀ a 
 
 end cache
 
+/-! ### Regenerated tie by translation (notes/IR.md): the code itself, re-translated on every run
+
+`Gen.FactsC03IR.*` are produced by `harness/factextract/facts_c03_ir.go` (go/ast → Lean) from the
+*current* bodies of `cloneHeader`, `Server.checkAddrPattern`, `serverPoolContext.prepareRequest`,
+`compression.acceptGzip / alreadyGziped / compress`; the proofs are in `Proofs/ProxyIR.lean`. -/
+
+/-- `cloneHeader` (pool.go; both loops over the `Connection` lines and their tokens, the hop-table loop)
+is the model's `cloneHeader`, for every header set, canonicalisation and hop table. -/
+theorem cloneHeader_regenerated_from_source (canon : String → String) (hop : List String) (h : Hdr) :
+    Gen.FactsC03IR.extractionFailed = false ∧
+    Gen.FactsC03IR.cloneHeaderIR canon hop h = cloneHeader canon hop h :=
+  ⟨by decide, Proxy.cloneHeader_regenerated_from_source canon hop h⟩
+
+/-- `Server.checkAddrPattern` (server.go): the `LastIndexByte` arithmetic, both slicings and the
+`net.ParseIP` test are the model's `addrIsHostName`; an unparsable URL leaves the flag as it was. -/
+theorem checkAddr_regenerated_from_source (isIP : List Char → Bool) (parsed : Option (List Char)) (old : Bool) :
+    Gen.FactsC03IR.extractionFailed = false ∧
+    Gen.FactsC03IR.checkAddrIR isIP parsed old = (match parsed with
+      | none => old
+      | some host => addrIsHostName isIP host) :=
+  ⟨by decide, Proxy.checkAddr_regenerated_from_source isIP parsed old⟩
+
+/-- `prepareRequest` (pool.go): URL construction, payload choice (mirror + stream ⇒ the stub), header
+clone and Host rule are the model's `prepareRequest`; it fails only when `http.NewRequestWithContext`
+rejects the URL. -/
+theorem prepare_regenerated_from_source {π : Type} (canon : String → String) (urlOK : String → Bool) (stub : π)
+    (span : Option Unit) (svr : ServerCfg) (mirror : Bool) (q : PReq π) :
+    Gen.FactsC03IR.extractionFailed = false ∧
+    Gen.FactsC03IR.prepareIR canon urlOK stub span svr mirror q =
+      (if urlOK (targetURL svr.url q.escapedPath q.rawQuery) then
+        (false, some (prepareRequest canon hopHeaders svr mirror stub q))
+      else (true, none)) :=
+  ⟨by decide, Proxy.prepare_regenerated_from_source canon urlOK stub span svr mirror q⟩
+
+/-- `compression.acceptGzip` / `alreadyGziped` (compression.go) are the model's predicates. -/
+theorem acceptGzip_regenerated_from_source (reqHdr respHdr : Hdr) :
+    Gen.FactsC03IR.extractionFailed = false ∧
+    Gen.FactsC03IR.acceptGzipIR reqHdr = acceptGzip reqHdr ∧
+    Gen.FactsC03IR.alreadyGzipedIR respHdr = alreadyGzipped respHdr :=
+  ⟨by decide, Proxy.acceptGzip_regenerated_from_source reqHdr, Proxy.alreadyGziped_regenerated_from_source respHdr⟩
+
+/-- `compression.compress`: the decision (three early `return false`) and the four header / field updates
+are the model's `proxyCompress`; it returns `true` exactly when it compressed. -/
+theorem compress_regenerated_from_source {β : Type} (ops : BodyOps β) (minLength : Nat) (reqHdr : Hdr) (r : Resp β) :
+    Gen.FactsC03IR.extractionFailed = false ∧
+    Gen.FactsC03IR.compressIR ops minLength reqHdr r =
+      (acceptGzip reqHdr && !alreadyGzipped r.hdr && !(r.cl != -1 && decide (r.cl < (minLength : Int))),
+       proxyCompress ops minLength reqHdr r) :=
+  ⟨by decide, Proxy.compress_regenerated_from_source ops minLength reqHdr r⟩
+
+/-- `pathadaptor.Adapt` (the RequestAdaptor's `path:` section): precedence and the four rewrites are the model's. -/
+theorem pathAdapt_regenerated_from_source (σ : Nat → String → String → String) (pa : PathAd) (path : String) :
+    Gen.FactsC03IR.extractionFailed = false ∧ Gen.FactsC03IR.pathAdaptIR σ pa path = pa.adapt σ path :=
+  ⟨by decide, Proxy.pathAdapt_regenerated_from_source σ pa path⟩
+
+/-- `adaptHeader` of requestadaptor.go and of responseadaptor.go (the three loops del / set / add, keys
+canonicalised by `http.Header`) are the model's `adaptHeader`. -/
+theorem adaptHeader_regenerated_from_source (canon : String → String) (a : AdSpec) (h : Hdr) :
+    Gen.FactsC03IR.extractionFailed = false ∧
+    Gen.FactsC03IR.adaptReqHeaderIR canon a h = adaptHeader (a.canonKeys canon) h ∧
+    Gen.FactsC03IR.adaptRespHeaderIR canon a h = adaptHeader (a.canonKeys canon) h :=
+  ⟨by decide, Proxy.adaptHeader_regenerated_from_source canon a h⟩
+
+/-- `RequestAdaptor.Handle` (requestadaptor.go): method / path / Host afterwards = `adaptReqLine`; header
+section, body, compress, decompress in that order = `reqAdaptorFull`; failure result ⇔ the model has none. -/
+theorem handleReqAd_regenerated_from_source {β : Type} (ops : BodyOps β) (σ : Nat → String → String → String)
+    (esc : String → String) (a : ReqLineAd) (ad : AdSpec) (q : ReqLine) (m : ReqMsg β) :
+    Gen.FactsC03IR.extractionFailed = false ∧
+    (Gen.FactsC03IR.handleReqAdIR ops σ a (some ad) ad.body (if ad.compress then "gzip" else "") (if ad.decompress then "gzip" else "") q m).2.1 =
+      ((adaptReqLine σ esc a q).method, (adaptReqLine σ esc a q).path, (adaptReqLine σ esc a q).host) ∧
+    (∀ m', reqAdaptorFull ops ad m = some m' →
+      (Gen.FactsC03IR.handleReqAdIR ops σ a (some ad) ad.body (if ad.compress then "gzip" else "") (if ad.decompress then "gzip" else "") q m).1 = "" ∧
+      (Gen.FactsC03IR.handleReqAdIR ops σ a (some ad) ad.body (if ad.compress then "gzip" else "") (if ad.decompress then "gzip" else "") q m).2.2 = m') ∧
+    (reqAdaptorFull ops ad m = none →
+      (Gen.FactsC03IR.handleReqAdIR ops σ a (some ad) ad.body (if ad.compress then "gzip" else "") (if ad.decompress then "gzip" else "") q m).1
+        = "decompressFailed") :=
+  ⟨by decide, Proxy.handleReqAd_regenerated_from_source_line ops σ esc a (some ad) _ _ _ q m,
+    (Proxy.handleReqAd_regenerated_from_source ops σ a ad q m).1, (Proxy.handleReqAd_regenerated_from_source ops σ a ad q m).2⟩
+
+/-- `ServerPool.handleMirror` (pool.go): the mirror backend is sent the model's mirror request; **`spCtx.resp`
+is never set** — whatever the mirror answers (or whether sending fails) the client-visible response cannot
+come from it. -/
+theorem handleMirror_regenerated_from_source {π : Type} (canon : String → String) (urlOK : String → Bool) (stub : π)
+    (span : Option Unit) (chosen : Option ServerCfg) (sendErr : Bool) (q : PReq π) :
+    Gen.FactsC03IR.extractionFailed = false ∧
+    Gen.FactsC03IR.handleMirrorIR canon urlOK stub span chosen sendErr q =
+      ((match chosen with
+        | none => none
+        | some svr => if urlOK (targetURL svr.url q.escapedPath q.rawQuery) then
+            mirrorSent canon (some (svr, true)) stub q else none), none) :=
+  ⟨by decide, Proxy.handleMirror_regenerated_from_source canon urlOK stub span chosen sendErr q⟩
+
+/-- `Proxy.Handle` (proxy.go): the mirror pool is started iff it exists and its filter matches; the request is
+served (`handle(ctx, false)`) by the first matching candidate pool, else the main pool — never by the mirror. -/
+theorem proxyHandle_regenerated_from_source (mirror : Option (Nat × Bool)) (main : Nat × Bool) (cands : List (Nat × Bool)) :
+    Gen.FactsC03IR.extractionFailed = false ∧
+    Gen.FactsC03IR.proxyHandleIR mirror main cands = proxyHandle mirror main cands :=
+  ⟨by decide, Proxy.proxyHandle_regenerated_from_source mirror main cands⟩
+
+/-- The fields of the model's `prepareRequest` are the pieces the request-side theorems talk about:
+method and payload untouched (main pool), URL = `targetURL` (⇒ `url_preserved`), header = `cloneHeader`
+(⇒ `cloneHeader_strips_hop / keeps_e2e`), and the Host on the wire = `hostSent` (⇒ `host_rule`) whenever
+the client sent a Host. -/
+theorem prepareRequest_fields {π : Type} (canon : String → String) (svr : ServerCfg) (stub : π) (q : PReq π) :
+    let o := prepareRequest canon hopHeaders svr false stub q
+    o.method = q.method ∧ o.payload = some q.payload ∧ o.url = targetURL svr.url q.escapedPath q.rawQuery ∧
+    o.hdr = cloneHeader canon hopHeaders q.hdr ∧ (q.host ≠ "" → o.wireHost svr = hostSent svr q.host) := by
+  refine ⟨rfl, by simp [prepareRequest], rfl, rfl, ?_⟩
+  intro hq
+  simp only [OutReq.wireHost, prepareRequest, hostSent]
+  by_cases hh : (!svr.addrIsHostName || svr.keepHost) = true
+  · simp [hh, hq]
+  · simp [hh]
+
+/-- non-vacuity: the translated code on concrete inputs. -/
+example : Gen.FactsC03IR.cloneHeaderIR id hopHeaders
+    [("X-A", ["1"]), ("Connection", ["close, X-Foo"]), ("X-Foo", ["bar"]), ("Keep-Alive", ["3"]), ("X-A", ["2"])]
+    = [("X-A", ["1"]), ("X-A", ["2"])] := by decide
+
+example : Gen.FactsC03IR.checkAddrIR (fun s => s == "::1".toList) (some "[::1]:8080".toList) true = false ∧
+    Gen.FactsC03IR.checkAddrIR (fun _ => false) (some "example.com:80".toList) false = true ∧
+    Gen.FactsC03IR.checkAddrIR (fun _ => false) none false = false := by decide
+
+/-! ### Retries: faithfulness holds per attempt, for any number of attempts -/
+
+/-- **Every attempt of a retried request puts the same faithful request on the wire** — for any number
+of attempts `n`: `prepareRequest` asks the request for a fresh payload reader each time. Together with
+`prepare_regenerated_from_source` (the payload of the built request *is* `req.GetPayload()`, obtained
+inside `prepareRequest`) and `prepareRequest_fields` this extends method / URL / header / Host / body
+faithfulness from the single request to every attempt. -/
+theorem every_attempt_faithful {π : Type} (empty : π) (o : OutReq π) (n : Nat) :
+    retrySeen true empty o n = List.replicate n o ∧ ∀ s ∈ retrySeen true empty o n, s = o := by
+  have h : retrySeen true empty o n = List.replicate n o := by
+    unfold retrySeen attemptSeen
+    simp only [Bool.true_or, if_true]
+    induction n with
+    | zero => rfl
+    | succ k ih => rw [List.range_succ, List.map_append, ih]; simp [List.replicate_succ']
+  refine ⟨h, ?_⟩
+  intro s hs
+  rw [h] at hs
+  exact (List.mem_replicate.mp hs).2
+
+/-- Facts behind `fresh = true`: `Request.GetPayload` returns a new reader over the buffered bytes on every
+call, and the function the retry wrapper calls once per attempt (`doHandle`) runs `prepareRequest` itself
+(whose translated body — `prepare_regenerated_from_source` — takes the payload from `req.GetPayload()`). -/
+theorem retry_facts :
+    Gen.FactsC03.getPayloadFresh = true ∧ Gen.FactsC03.prepareInsideDoHandle = true := ⟨rfl, rfl⟩
+
+/-- The seeded defect C03-m4 in the model: one payload reader shared by all attempts (`fresh = false`)
+sends the body on the first attempt only. -/
+example : retrySeen false ([] : List Nat) ⟨"POST", "http://b/x", some [1, 2, 3], [], ""⟩ 3 =
+    [⟨"POST", "http://b/x", some [1, 2, 3], [], ""⟩, ⟨"POST", "http://b/x", some [], [], ""⟩,
+     ⟨"POST", "http://b/x", some [], [], ""⟩] := by decide
+
+/-- Number of attempts: one without a retry policy or for a stream request (its body can be read only
+once), otherwise one more than the failed attempts, capped by `maxAttempts`. -/
+theorem attempts_bounded (m : Nat) (isStream : Bool) (failures : Nat) :
+    attemptsMade none isStream failures = 1 ∧ attemptsMade (some m) true failures = 1 ∧
+    attemptsMade (some m) false failures ≤ m ∧ attemptsMade (some m) false failures ≤ failures + 1 ∧
+    (failures < m → attemptsMade (some m) false failures = failures + 1) := by
+  simp only [attemptsMade, if_true, Bool.false_eq_true, if_false]
+  refine ⟨trivial, trivial, by omega, by omega, by intro h; omega⟩
+
+/-- In the end-to-end model with a pool retry policy and `failureCodes`: whatever the scripted fates of the
+attempts (resets, listed statuses, oversized answers …), every request the backend sees is the one
+faithful request `prepare` built, and there are at most `max 1 maxAttempts`… exactly as many as the
+retry loop made. -/
+theorem runRetry_attempts_same_request {β : Type} (ops : BodyOps β) (canon : String → String) (cfg : Cfg)
+    (retryMax : Option Nat) (failureCodes : List Nat) (q : ClientReq β) (replies : List (Reply β))
+    (seenAll : List (BackendSeen β)) (cl : Resp β) (ok : Bool) (m : ReqMsg β) (seen : BackendSeen β)
+    (hp : prepare ops canon cfg q = .ready m seen)
+    (hr : runRetry ops canon cfg retryMax failureCodes q replies = .proxied seenAll cl ok) :
+    ∀ s ∈ seenAll, s = seen := by
+  unfold runRetry at hr
+  rw [hp] at hr
+  simp only [] at hr
+  intro s hs
+  split at hr <;> (cases hr; exact (List.mem_replicate.mp hs).2)
+
+/-- Without a retry policy and without `failureCodes` the retry model is the plain `run`: one attempt,
+the same client response. -/
+theorem runRetry_single_eq_run {β : Type} (ops : BodyOps β) (canon : String → String) (cfg : Cfg)
+    (q : ClientReq β) (reply : BackendReply β) :
+    runRetry ops canon cfg none [] q [.resp reply] = match run ops canon cfg q reply with
+      | .early st => .early st
+      | .adaptorFailed => .adaptorFailed
+      | .proxied seen cl ok => .proxied [seen] cl ok := by
+  unfold runRetry run
+  cases hp : prepare ops canon cfg q with
+  | early st => rfl
+  | adaptorFailed => rfl
+  | ready m seen =>
+    have hr : proxyResp ops cfg q.method seen.hdr reply = none ∨
+        ∃ r, proxyResp ops cfg q.method seen.hdr reply = some r := by
+      cases proxyResp ops cfg q.method seen.hdr reply with
+      | none => exact Or.inl rfl
+      | some r => exact Or.inr ⟨r, rfl⟩
+    rcases hr with hr | ⟨r, hr⟩ <;>
+      simp [retryLoop, doHandleOut, hr]
+
+/-! ### RequestAdaptor: what the backend then sees (faithfulness modulo the configured adaption) -/
+
+/-- An adaptor that configures nothing for the request line leaves it alone. -/
+theorem adaptReqLine_default (σ : Nat → String → String → String) (esc : String → String) (q : ReqLine) :
+    adaptReqLine σ esc {} q = q := by
+  obtain ⟨m, p, e, h⟩ := q
+  simp [adaptReqLine]
+
+/-- Method and Host after the adaptor: the configured value when there is one, the client's otherwise;
+the Host rule (`host_rule`) then applies to that Host. -/
+theorem adaptReqLine_method_host (σ : Nat → String → String → String) (esc : String → String) (a : ReqLineAd) (q : ReqLine) :
+    (adaptReqLine σ esc a q).method = (if a.method = "" then q.method else a.method) ∧
+    (adaptReqLine σ esc a q).host = (if a.host = "" then q.host else a.host) := by
+  simp only [adaptReqLine]
+  constructor
+  · by_cases h1 : a.method = ""
+    · simp [h1]
+    · by_cases h2 : a.method = q.method <;> simp [h1, h2]
+  · by_cases h : a.host = "" <;> simp [h]
+
+/-- The path the backend is asked for is exactly `PathAdaptor.Adapt` of the client's decoded path; when the
+adaption does not change the path its original escaped form is kept (so `url_preserved` still applies),
+otherwise the default encoding of the new path is sent. -/
+theorem adaptReqLine_path (σ : Nat → String → String → String) (esc : String → String) (a : ReqLineAd) (q : ReqLine) :
+    (adaptReqLine σ esc a q).path = (match a.path with | some pa => pa.adapt σ q.path | none => q.path) ∧
+    ((adaptReqLine σ esc a q).path = q.path → (adaptReqLine σ esc a q).escapedPath = q.escapedPath) ∧
+    ((adaptReqLine σ esc a q).path ≠ q.path →
+      (adaptReqLine σ esc a q).escapedPath = esc (adaptReqLine σ esc a q).path) := by
+  simp only [adaptReqLine]
+  refine ⟨rfl, ?_, ?_⟩
+  · intro h; simp [h]
+  · intro h; simp [h]
+
+/-- `pathadaptor.Adapt`: precedence replace > addPrefix > trimPrefix > regexp, nothing configured = identity. -/
+theorem pathAdapt_cases (σ : Nat → String → String → String) (pa : PathAd) (p : String) :
+    (pa.replace ≠ "" → pa.adapt σ p = pa.replace) ∧
+    (pa.replace = "" → pa.addPrefix ≠ "" → pa.adapt σ p = pa.addPrefix ++ p) ∧
+    (pa.replace = "" → pa.addPrefix = "" → pa.trimPrefix ≠ "" → pa.adapt σ p = trimPrefixS p pa.trimPrefix) ∧
+    (pa.replace = "" → pa.addPrefix = "" → pa.trimPrefix = "" → pa.re = none → pa.adapt σ p = p) := by
+  refine ⟨?_, ?_, ?_, ?_⟩ <;> intros <;> simp_all [PathAd.adapt]
+
+/-- **Headers after a RequestAdaptor `header:` section**: whatever the section deletes, sets or adds, the
+backend never sees a hop-by-hop header (also not one the adaptor itself set), and every other header arrives
+exactly as the adaptor left it — provided the section does not edit `Connection` itself and the header is not
+named by a `Connection` token. -/
+theorem reqAdapt_header_then_clone (canon : String → String) (hop : List String) (a : AdSpec) (h : Hdr) (k : String) :
+    (k ∈ hop.map canon → (cloneHeader canon hop (adaptHeader a h)).get k = []) ∧
+    (k ∉ hop.map canon → "Connection" ∉ a.hkeys → k ∉ connTokens canon h →
+      (cloneHeader canon hop (adaptHeader a h)).get k = (adaptHeader a h).get k) := by
+  constructor
+  · intro hk
+    exact cloneHeader_strips_hop canon hop _ k (Or.inl hk)
+  · intro h1 hc h2
+    apply cloneHeader_keeps_e2e canon hop _ k h1
+    unfold connTokens at *
+    rw [get_adaptHeader_other a h "Connection" hc]
+    exact h2
+
+/-- **Headers after a ResponseAdaptor `header:` section** (what the client then sees): every header the
+section does not name is the backend's, values and order included. -/
+theorem respAdapt_header_other {β : Type} (ops : BodyOps β) (a : AdSpec) (r : Resp β) (k : String)
+    (hk : k ∉ a.hkeys) (h1 : k ≠ keyCL) (h2 : k ≠ keyCE) :
+    (adaptorHandle ops a r).hdr.get k = r.hdr.get k := by
+  have hcore : ∀ r : Resp β, (adaptorCore ops a r).hdr.get k = r.hdr.get k := by
+    intro r
+    obtain ⟨st, h, cl, pl⟩ := r
+    cases pl <;>
+    · simp only [adaptorCore, adaptorBody, adaptorCompress, adaptorDecompress]
+      repeat' split
+      all_goals simp_all [Hdr.get_set_other, Hdr.get_del_other]
+  unfold adaptorHandle
+  rw [hcore]
+  exact get_adaptHeader_other a r.hdr k hk
+
+/-! ### Mirror pool -/
+
+/-- What a mirror backend is sent is the same faithful request (method, URL, stripped header, Host rule of the
+*mirror's* server), with the one documented exception: a stream body is replaced by the constant stub. -/
+theorem mirror_request_faithful {π : Type} (canon : String → String) (svr : ServerCfg) (stub : π) (q : PReq π) :
+    mirrorSent canon (some (svr, true)) stub q = some (prepareRequest canon hopHeaders svr true stub q) ∧
+    (prepareRequest canon hopHeaders svr true stub q).method = q.method ∧
+    (prepareRequest canon hopHeaders svr true stub q).hdr = cloneHeader canon hopHeaders q.hdr ∧
+    (prepareRequest canon hopHeaders svr true stub q).payload = some (if q.isStream then stub else q.payload) ∧
+    (∀ svr', mirrorSent canon (some (svr', false)) stub q = none) ∧ mirrorSent canon none stub q = none := by
+  refine ⟨rfl, rfl, rfl, ?_, fun _ => rfl, rfl⟩
+  cases h : q.isStream <;> simp [prepareRequest, h]
+
+/-- The primary pool's request does not depend on whether a mirror exists (`mirror = false` never reads the
+stub): the client's backend gets the faithful request, mirror or not. -/
+theorem primary_ignores_mirror_stub {π : Type} (canon : String → String) (svr : ServerCfg) (s1 s2 : π) (q : PReq π) :
+    prepareRequest canon hopHeaders svr false s1 q = prepareRequest canon hopHeaders svr false s2 q := by
+  simp [prepareRequest]
+
+
+/-! ### Every history through the cache; every adaptor combination end to end -/
+
+section cacheAll
+variable {β : Type} (ops : BodyOps β)
+
+/-- Every entry of the cache is the snapshot of a well-framed response. -/
+def CacheWF (c : Cache β) : Prop := ∀ ke ∈ c, WellFramed ops (respFromCache ke.2)
+
+theorem lookup_mem {α : Type} (k : String) (c : List (String × α)) (e : α) (h : c.lookup k = some e) : (k, e) ∈ c := by
+  induction c with
+  | nil => simp [List.lookup] at h
+  | cons x t ih =>
+    obtain ⟨k', e'⟩ := x
+    simp only [List.lookup] at h
+    by_cases hk : k = k'
+    · subst hk; simp at h; subst h; simp
+    · have : (k == k') = false := by simpa using hk
+      rw [this] at h
+      exact List.mem_cons_of_mem _ (ih h)
+
+/-- Where the entries of the cache after one step come from: they were there before, or the step was a miss
+whose fresh, storable (hence buffered) response was snapshotted under the request's key. A hit never
+changes the cache. -/
+theorem poolStep_cache_mem (cfg : CacheCfg) (as : List AdSpec) (c : Cache β) (q : PoolReq β) (ke : String × CacheEntry β)
+    (h : ke ∈ (poolStep ops cfg false as c q).1) :
+    ke ∈ c ∨ ∃ r, q.fresh = some r ∧ storable ops cfg q.method q.hdr r = true ∧
+      ke = (q.key, ⟨r.status, r.hdr, r.payload.content⟩) := by
+  unfold poolStep at h
+  cases hl : cacheLoad cfg q.key q.method q.hdr c with
+  | some e => simp [hl] at h; exact Or.inl h
+  | none =>
+    simp only [hl] at h
+    cases hf : q.fresh with
+    | none => simp [hf] at h; exact Or.inl h
+    | some r =>
+      simp only [hf, cacheStore] at h
+      by_cases hs : storable ops cfg q.method q.hdr r = true
+      · simp only [hs, if_true, List.mem_cons] at h
+        rcases h with h | h
+        · exact Or.inr ⟨r, rfl, hs, h⟩
+        · exact Or.inl h
+      · simp only [hs] at h; exact Or.inl h
+
+/-- **Every response of every history through a caching pool is well-framed** — any interleaving of keys,
+methods, `no-cache` / `no-store` requests, failures, hits and misses, any number of requests, any chain of
+downstream response-editing filters not naming Content-Length — provided what the Proxy itself produces
+(fresh responses, failure responses) is well-framed and the cache started out with well-framed snapshots. -/
+theorem all_history_responses_well_framed (cfg : CacheCfg) (as : List AdSpec) (has : ∀ a ∈ as, keyCL ∉ a.hkeys)
+    (qs : List (PoolReq β)) (c : Cache β) (hc : CacheWF ops c)
+    (hq : ∀ q ∈ qs, WellFramed ops q.failure ∧ ∀ r, q.fresh = some r → WellFramed ops r) :
+    ∀ resp ∈ runHistory ops cfg false as c qs, WellFramed ops resp := by
+  induction qs generalizing c with
+  | nil => intro resp h; simp [runHistory] at h
+  | cons q t ih =>
+    intro resp h
+    simp only [runHistory, List.mem_cons] at h
+    obtain ⟨hfail, hfresh⟩ := hq q (by simp)
+    rcases h with h | h
+    · -- the response of this step
+      subst h
+      unfold poolStep
+      cases hl : cacheLoad cfg q.key q.method q.hdr c with
+      | some e =>
+        have hmem : (q.key, e) ∈ c := by
+          unfold cacheLoad at hl
+          split at hl
+          · cases hl
+          · split at hl
+            · cases hl
+            · exact lookup_mem _ _ _ hl
+        exact pipeline_of_transformations_well_framed ops as has _ (hc _ hmem)
+      | none =>
+        cases hf : q.fresh with
+        | none => simpa [hf] using hfail
+        | some r => simpa [hf] using pipeline_of_transformations_well_framed ops as has r (hfresh r hf)
+    · -- later steps: the invariant is kept
+      apply ih (poolStep ops cfg false as c q).1 _ (fun q' hq' => hq q' (by simp [hq'])) resp h
+      intro ke hke
+      rcases poolStep_cache_mem ops cfg as c q ke hke with hin | ⟨r, hf, hs, rfl⟩
+      · exact hc ke hin
+      · have hw := hfresh r hf
+        unfold WellFramed respFromCache at *
+        simpa [Pl.content] using hw
+
+/-- **A hit is a bit-exact copy of what was stored**: in any history, a response served from the cache is the
+downstream image of the stored snapshot (status, every header line, every body byte), and the snapshot itself
+is not changed by serving it — so the next hit is the same copy again. -/
+theorem hit_is_exact_copy (cfg : CacheCfg) (as : List AdSpec) (c : Cache β) (q : PoolReq β) (e : CacheEntry β)
+    (hl : cacheLoad cfg q.key q.method q.hdr c = some e) :
+    (poolStep ops cfg false as c q).2 = adaptorChain ops as (respFromCache e) ∧
+    (respFromCache e).status = e.status ∧ (respFromCache e).hdr = e.hdr ∧ (respFromCache e).payload = .bytes e.body ∧
+    (poolStep ops cfg false as c q).1 = c ∧
+    cacheLoad cfg q.key q.method q.hdr (poolStep ops cfg false as c q).1 = some e := by
+  have h := poolStep_hit ops cfg as c q e hl
+  refine ⟨by rw [h], rfl, rfl, rfl, by rw [h], by rw [h]; exact hl⟩
+
+end cacheAll
+
+section e2e
+variable {β : Type} (ops : BodyOps β)
+
+theorem fetch_not_stream (dflt limit : Int) (s : Payload.Src) (h : ¬ Payload.normLimit dflt limit < 0) :
+    Payload.fetch dflt limit s ≠ .stream := by
+  unfold Payload.fetch
+  simp only [h, if_false]
+  (repeat' split) <;> simp
+
+theorem fetchFailing_not_stream (dflt limit : Int) (a : Nat) (h : ¬ Payload.normLimit dflt limit < 0) :
+    Payload.fetchFailing dflt limit a ≠ .stream := by
+  unfold Payload.fetchFailing
+  simp only [h, if_false]
+  split <;> simp
+
+/-- What the transport hands over is coherent (ContentLength field = Content-Length header) whenever the
+backend's reply is — also after its transparent gunzip, which drops both. -/
+theorem transportReply_coherent (method : String) (outHdr : Hdr) (b : BackendReply β)
+    (hb : Coherent (⟨b.status, b.hdr, b.cl, .stream b.body⟩ : Resp β)) :
+    Coherent (transportReply ops method outHdr b) := by
+  unfold transportReply
+  simp only []
+  split
+  · exact hb
+  · split
+    · constructor
+      · intro _
+        show ((b.hdr.del keyCE).del keyCL).get keyCL = []
+        exact Hdr.get_del_same _ _
+      · intro h; simp at h
+    · exact hb
+
+/-- **End to end, every adaptor combination**: in buffered mode (response limit in force ≥ 0), for every
+client request, every RequestAdaptor (method / path / host / header / body / compress / decompress), every
+`compression:` setting, every limit at the four levels, every ResponseAdaptor whose header section does not
+name Content-Length, and every coherent backend reply to a non-HEAD request: whatever reaches the client —
+the proxied response or the Proxy's own failure response — is well-framed. -/
+theorem e2e_response_well_framed (canon : String → String) (cfg : Cfg) (q : ClientReq β) (reply : BackendReply β)
+    (htake : ∀ n b, n ≤ ops.len b → ops.len (ops.take n b) = n)
+    (hbuf : 0 ≤ Payload.normLimit cfg.dflt (Payload.effLimit cfg.poolMax cfg.proxyMax))
+    (hhead : (q.method == "HEAD") = false)
+    (had : ∀ a, cfg.respAd = some a → keyCL ∉ a.hkeys)
+    (hb : Coherent (⟨reply.status, reply.hdr, reply.cl, .stream reply.body⟩ : Resp β))
+    (seen : BackendSeen β) (cl : Resp β) (ok : Bool)
+    (hr : run ops canon cfg q reply = .proxied seen cl ok) : WellFramed ops cl := by
+  unfold run at hr
+  cases hp : prepare ops canon cfg q with
+  | early st => rw [hp] at hr; cases hr
+  | adaptorFailed => rw [hp] at hr; cases hr
+  | ready m s =>
+    rw [hp] at hr
+    simp only [] at hr
+    cases hpr : proxyResp ops cfg q.method s.hdr reply with
+    | none =>
+      rw [hpr] at hr
+      simp only [Result.proxied.injEq] at hr
+      obtain ⟨_, h2, _⟩ := hr
+      subst h2
+      left; rfl
+    | some r2 =>
+      rw [hpr] at hr
+      simp only [Result.proxied.injEq] at hr
+      obtain ⟨_, h2, _⟩ := hr
+      subst h2
+      have hds : ∀ a ∈ downstream cfg, keyCL ∉ a.hkeys := by
+        intro a ha
+        unfold downstream at ha
+        cases hra : cfg.respAd with
+        | none => rw [hra] at ha; simp at ha
+        | some a' => rw [hra] at ha; simp at ha; rw [ha]; exact had a' hra
+      apply pipeline_of_transformations_well_framed ops _ hds
+      -- r2 comes out of FetchPayload on a coherent response
+      have hr0 := transportReply_coherent ops q.method s.hdr reply hb
+      have hnn : ¬ Payload.normLimit cfg.dflt (Payload.effLimit cfg.poolMax cfg.proxyMax) < 0 := by omega
+      have hfin : ∀ r1 : Resp β, Coherent r1 →
+          fetchPayload ops cfg.dflt (Payload.effLimit cfg.poolMax cfg.proxyMax) false r1 = some r2 → WellFramed ops r2 := by
+        intro r1 hc1 hf
+        have hstream : r2.payload.isStream = false := by
+          unfold fetchPayload Payload.fetchResp at hf
+          simp only [hnn, if_false, Bool.false_eq_true] at hf
+          cases hfe : Payload.fetch cfg.dflt (Payload.effLimit cfg.poolMax cfg.proxyMax) ⟨r1.cl, ops.len r1.payload.content⟩ with
+          | stream => exact absurd hfe (fetch_not_stream _ _ _ hnn)
+          | ok n => rw [hfe] at hf; cases hf; rfl
+          | tooLarge => rw [hfe] at hf; cases hf
+          | shortRead => rw [hfe] at hf; cases hf
+        exact framing_established_by_fetch ops _ _ r1 r2 htake hc1 hf hstream
+      unfold proxyResp at hpr
+      simp only [hhead] at hpr
+      cases hcomp : cfg.compression with
+      | none =>
+        simp only [hcomp, Bool.and_false, Bool.false_eq_true, if_false] at hpr
+        exact hfin _ hr0 hpr
+      | some ml =>
+        simp only [hcomp] at hpr
+        split at hpr
+        · -- short backend body behind the compressor: an error in buffered mode
+          exfalso
+          cases hff : Payload.fetchFailing cfg.dflt (Payload.effLimit cfg.poolMax cfg.proxyMax)
+              (ops.len (proxyCompress ops ml s.hdr (transportReply ops q.method s.hdr reply)).payload.content) with
+          | stream => exact fetchFailing_not_stream _ _ _ hnn hff
+          | ok n => rw [hff] at hpr; cases hpr
+          | tooLarge => rw [hff] at hpr; cases hpr
+          | shortRead => rw [hff] at hpr; cases hpr
+        · exact hfin _ (proxyCompress_coherent ops ml s.hdr _ hr0) hpr
+
+end e2e
 /-! ### Non-vacuity and the witnesses against the unrepaired code -/
 
 /-- A concrete body algebra: bodies are byte lists, "gzip" prepends a marker byte. -/
@@ -692,5 +1182,15 @@ example :
     (runHistory exOps exCacheCfg true [{ compress := true }] [] [exQ, exQ, exQ]).map (wellFramedB exOps) = [true, true, false] ∧
     ((runHistory exOps exCacheCfg true [{ hadd := [("X-Added", "1")] }] [] [exQ, exQ, exQ]).map (·.hdr.get "X-Added"))
       = [["1"], ["1"], ["1", "1"]] := by decide
+
+/-- non-vacuity: an interleaved history (two keys, a no-cache request, a failing backend) — all responses
+well-framed, the cache's entries are snapshots. -/
+example :
+    let q1 : PoolReq (List Nat) := ⟨"k1", "GET", [], some ⟨200, [("Content-Length", ["3"])], 3, .bytes [1, 2, 3]⟩, ⟨500, [], -1, .bytes []⟩⟩
+    let q2 : PoolReq (List Nat) := ⟨"k2", "GET", [], some ⟨200, [("Content-Length", ["1"])], 1, .bytes [9]⟩, ⟨500, [], -1, .bytes []⟩⟩
+    let q3 : PoolReq (List Nat) := ⟨"k1", "GET", [("Cache-Control", ["no-cache"])], none, ⟨500, [], -1, .bytes []⟩⟩
+    (runHistory exOps ⟨[200], ["GET"], 100⟩ false [{ compress := true }] [] [q1, q2, q1, q3, q2, q1]).map (wellFramedB exOps)
+      = [true, true, true, true, true, true] := by decide
+
 
 end EgVerif.C03
